@@ -337,6 +337,15 @@ def terminal_runs(rep):
     import pty
     import select
     import subprocess
+    try:
+        m0, s0 = pty.openpty()
+        os.close(m0)
+        os.close(s0)
+    except OSError as e:
+        # no pseudo terminals here: the situation cannot be produced
+        rep.cov['terminal_runs'] = 0
+        rep.cov['terminal_runs_skipped'] = f'no pseudo terminal: {e}'
+        return
     base = common.subscratch('c04-tty')
     cmd = os.path.join(base, 'always.sh')
     with open(cmd, 'w') as f:
@@ -381,6 +390,12 @@ def terminal_runs(rep):
                 out += d
             elif p.poll() is not None:
                 break
+        # (the terminal reports EOF/EIO when the last holder closes it,
+        # which is a moment before the process can be reaped)
+        try:
+            p.wait(timeout=max(10.0, limit - (time.time() - t0)))
+        except subprocess.TimeoutExpired:
+            pass
         hung = p.poll() is None
         if hung:
             try:
